@@ -23,13 +23,19 @@ open SnowModel.RandRange (Mk Out values)
 abbrev WellNamedOp (nm : List (Name × Name)) (op : Op) : Prop := Proofs.C10.WellNamedOp nm op
 
 /-- Ids are saved densely: an ordinary `save_row` of table `t` carries the next id of `t`
-    (`max(table_counters[t], local_counters[t]) + 1`); a re-save after a continuation names an id
-    of an earlier run and precedes the run's own rows of that table.  False exactly when an id of
-    `t` is reserved ahead (forward reference to a nickname, D07) or rows of `t` nest. -/
+    (`table_counters[t] + 1`); the re-saves after a continuation name ids not above the counter.
+    False exactly when an id of `t` is reserved ahead (forward reference to a nickname, D07) or rows
+    of `t` nest. -/
 abbrev DenseTrace (s : St) (ops : List Op) : Prop := Proofs.C10.DenseTrace s ops
 
+/-- Ids are fresh: an ordinary `save_row` of table `t` carries an id above `local_counters[t]`,
+    i.e. above every id the earlier iterations knew (ids come from the increasing `IdManager`
+    counter; reserving ahead and nesting keep this true). -/
+abbrev FreshTrace (s : St) (ops : List Op) : Prop := Proofs.C10.FreshTrace s ops
+
 /-- The row was saved by the running iteration: since the last `reset_locals`, and not by
-    `resave_objects_from_continuation`. -/
+    `resave_objects_from_continuation` (by `resaved_rows_not_current` the second conjunct follows
+    from the first since fix 9826fcb). -/
 def Current (s : St) (r : SRow) : Prop := r.since = s.epoch ∧ r.resaved = false
 
 instance (s : St) (r : SRow) : Decidable (Current s r) := by unfold Current; infer_instance
@@ -130,9 +136,18 @@ theorem rr_nickname_scope (counters : List (Name × Nat)) (tables : List Name)
     rw [Proofs.C10.fallback_current] at hlo
     split_ifs at hlo <;> omega
 
-/-- The iteration reading of the previous theorem: "a row created in the current iteration if one
-    with that nickname exists".  FULL STATEMENT (refuted below, D23): as `rr_nickname_scope` with
-    `Current s ·` in place of `·.since = s.epoch`. -/
+/-- **Re-saved just_once rows are never "current"** (fix 9826fcb: `resave_objects_from_continuation`
+    ends with `reset_locals()`): after any op sequence, a row saved by `Op.resave` lies strictly
+    before the current window. -/
+theorem resaved_rows_not_current (counters : List (Name × Nat)) (tables : List Name)
+    (nickmap : List (Name × Name)) (ops : List Op) (s : St)
+    (hrun : run (init counters tables nickmap) ops = .ok s) :
+    ∀ r ∈ s.rows, r.resaved = true → r.since < s.epoch :=
+  (Proofs.C10.resavedOld_run ops _ s ⟨by simp [init], by simp [init]⟩ hrun).2
+
+/-- The iteration reading of `rr_nickname_scope`: "a row created in the current *iteration* if one
+    with that nickname exists" (refuted before fix 9826fcb — finding D41, formerly D23 —, see
+    `rr_nickname_iteration_scope`). -/
 def NicknameIterationScope : Prop :=
   ∀ (counters : List (Name × Nat)) (tables : List Name) (nickmap : List (Name × Name))
     (ops : List Op) (s : St),
@@ -144,7 +159,7 @@ def NicknameIterationScope : Prop :=
     ∀ r ∈ s.rows, pick s n .current draw = .ok (T, r.id) → r.table = T →
       (∃ r' ∈ s.rows, r'.nick = some n ∧ Current s r') → Current s r
 
-/-- Helper for the refutation witnesses: the state a successful run ends in. -/
+/-- Helper for concrete witnesses: the state a successful run ends in. -/
 def okOr (d : St) : Except Err St → St
   | .ok s => s
   | .error _ => d
@@ -152,42 +167,35 @@ def okOr (d : St) : Except Err St → St
 theorem eq_okOr {e : Except Err St} {s : St} (d : St) (h : e = .ok s) : s = okOr d e := by
   rw [h]; rfl
 
-/-- D23 witness: a continued run (`orig_used_ids = {T: 3}`) re-saves the just_once row `T(1)` of
-    nickname `n` *after* `reset_locals`; the iteration then creates `T(4)` under the same nickname. -/
-def d23Init : St := init [("T", 3)] ["T"] [("n", "T"), ("T", "T")]
-def d23Ops : List Op := [.save "T" (some "n") 1 true, .save "T" (some "n") 4 false]
-
-/-- **Refuted on the real code (finding D23).**  In the first iteration of a continued run the
-    re-saved just_once row counts as "current": `random_reference: n` with draw 1 returns `T(1)`,
-    a row of an earlier run, although `T(4)` was created under `n` in the running iteration. -/
-theorem rr_nickname_iteration_scope_refuted : ¬ NicknameIterationScope := by
-  intro h
-  have hrun : run d23Init d23Ops = .ok (okOr d23Init (run d23Init d23Ops)) := rfl
-  have := h [("T", 3)] ["T"] [("n", "T"), ("T", "T")] d23Ops _ hrun (by decide) "n" "T" (by decide) (by decide)
-    { nick := some "n", table := "T", lo := 1, hi := 2 } (by decide) 1 (by decide) (by decide)
-    { table := "T", id := 1, nick := some "n", ord := some 1, since := 1, resaved := true } (by decide) (by decide) rfl
-    ⟨{ table := "T", id := 4, nick := some "n", ord := some 2, since := 1, resaved := false }, by decide, rfl, by decide⟩
-  exact absurd this.2 (by decide)
-
-/-- **Partial (what holds).**  If no re-saved row of nickname `n` sits in the current window — i.e.
-    `n` is not the nickname of a just_once template in the first iteration of a continued run — the
-    iteration reading holds. -/
-theorem rr_nickname_iteration_scope_partial (counters : List (Name × Nat)) (tables : List Name)
-    (nickmap : List (Name × Name)) (ops : List Op) (s : St)
-    (hrun : run (init counters tables nickmap) ops = .ok s)
-    (hwn : ∀ op ∈ ops, WellNamedOp (init counters tables nickmap).nickToTable op)
-    (n T : Name) (hn : s.nickToTable.lookup n = some T) (h0 : ctrOf counters n = 0)
-    (hres : ∀ r ∈ s.rows, r.nick = some n → r.since = s.epoch → r.resaved = false)
-    (pr : PickRange) (hpr : pickRange s n .current = .ok pr)
-    (draw : Nat) (hlo : pr.lo ≤ draw) (hhi : draw ≤ pr.hi) :
-    ∃ r ∈ s.rows, pick s n .current draw = .ok (T, r.id) ∧ r.table = T ∧ r.nick = some n ∧
-      ((∃ r' ∈ s.rows, r'.nick = some n ∧ Current s r') → Current s r) := by
-  obtain ⟨r, hr, h1, h2, h3, -, h5⟩ :=
+/-- **Nickname scope, iteration reading, full strength** (was refuted by the D41 witness before the
+    fix): whenever a row with nickname `n` was created by the running iteration, the row returned by
+    `random_reference: n` was created by the running iteration — in every state reachable by a
+    well-named op sequence, continuation re-saves included. -/
+theorem rr_nickname_iteration_scope : NicknameIterationScope := by
+  intro counters tables nickmap ops s hrun hwn n T hn h0 pr hpr draw hlo hhi r hr hpick hrt ⟨r', hr', hr'n, hr'c⟩
+  obtain ⟨r2, hr2, h1, h2, h3, h4, h5⟩ :=
     rr_nickname_scope counters tables nickmap ops s hrun hwn n T hn h0 .current pr hpr draw hlo hhi
-  refine ⟨r, hr, h1, h2, h3, ?_⟩
-  rintro ⟨r', hr', hr'n, hr'c⟩
-  have := h5 rfl ⟨r', hr', hr'n, hr'c.1⟩
-  exact ⟨this, hres r hr h3 this⟩
+  have hw := h5 rfl ⟨r', hr', hr'n, hr'c.1⟩
+  -- `r` need not be `r2` syntactically, but both carry the drawn id of table T: use the lookup
+  have hid : r.id = r2.id := by
+    rw [hpick] at h1
+    simp only [Except.ok.injEq, Prod.mk.injEq, true_and] at h1
+    exact h1
+  -- ids are unique per table (sqlite UNIQUE, modelled by `save`): r and r2 are the same row
+  have huniq := Proofs.C10.ids_unique_run ops _ s (by simp [Proofs.C10.IdsUnique, init]) hrun
+  have : r = r2 := huniq r hr r2 hr2 (hrt.trans h2.symm) hid
+  subst this
+  have hres := resaved_rows_not_current counters tables nickmap ops s hrun r hr
+  refine ⟨hw, ?_⟩
+  cases hb : r.resaved with
+  | false => rfl
+  | true => have := hres hb; omega
+
+/-- D41 scenario on the repaired model: a continued run (`orig_used_ids = {T: 3}`) re-saves the
+    just_once row `T(1)` of nickname `n`, then the iteration creates `T(4)` under the same nickname:
+    the range handed to the randomizer is `[2, 2]` (before the fix: `[1, 2]`). -/
+def d41Init : St := init [("T", 3)] ["T"] [("n", "T"), ("T", "T")]
+def d41Ops : List Op := [.resave [("T", some "n", 1)], .save "T" (some "n") 4]
 
 /-! ### table scope -/
 
@@ -225,14 +233,14 @@ theorem contiguous_of_dense (counters : List (Name × Nat)) (tables : List Name)
     (hd : DenseTrace (init counters tables nickmap) ops)
     (T : Name) (hT : s.nickToTable.lookup T = none) : ContiguousSaves s T := by
   obtain ⟨hi, hnm⟩ := Proofs.C10.run_invariant (init counters tables nickmap).nickToTable
-    (fun s => s.nickToTable.lookup T = none → Proofs.C10.TableInv s T)
+    Proofs.C10.DenseOp (fun s => s.nickToTable.lookup T = none → Proofs.C10.TableInv s T)
     (fun s op s1 o hnm hp hw hdo hs hl => by
       have hl' : s.nickToTable.lookup T = none := by rw [hnm, ← (Proofs.C10.step_frame hs).1.trans hnm]; exact hl
       exact Proofs.C10.tableInv_step _ T (by rw [← hnm]; exact hl') s op s1 o hnm (hp hl') hw hdo hs)
     ops _ s rfl (fun _ => Proofs.C10.tableInv_init counters tables nickmap T) hwn hd hrun
   have hi := hi hT
   refine ⟨hi.cur, fun i h1 h2 => hi.fill i h2 h1, fun i h1 h2 => ?_⟩
-  rcases hi.ex i h2 (by omega) with h | h
+  rcases hi.ex i h2 h1 with h | h
   · exact Or.inl ⟨h2, h⟩
   · exact Or.inr h
 
@@ -264,10 +272,11 @@ def TableScopeFull : Prop :=
 /-- D07 witness: `A{fwd: reference n}` reserves `T(1)` for the nickname; the two plain `T` rows get
     ids 2 and 3; `P{r: random_reference T}` runs before `T(1)` is created. -/
 def d07Init : St := init [] ["T"] [("n", "T"), ("T", "T"), ("A", "A"), ("P", "P")]
-def d07Ops : List Op := [.save "T" none 2 false, .save "T" none 3 false]
+def d07Ops : List Op := [.save "T" none 2, .save "T" none 3]
 
-/-- **Refuted on the real code (finding D07).**  With a forward-reserved id outstanding the range
-    handed to the randomizer is `[1, 3]`; draw 1 returns `T(1)`, which does not exist yet. -/
+/-- **Refuted on the real code (finding D07, not repaired by 9826fcb).**  With a forward-reserved id
+    outstanding the range handed to the randomizer is `[1, 3]`; draw 1 returns `T(1)`, which does
+    not exist yet. -/
 theorem rr_table_scope_refuted : ¬ TableScopeFull := by
   intro h
   have hrun : run d07Init d07Ops = .ok (okOr d07Init (run d07Init d07Ops)) := rfl
@@ -276,15 +285,133 @@ theorem rr_table_scope_refuted : ¬ TableScopeFull := by
   revert this
   decide
 
-/-- … and when the reserved row is finally saved, `table_counters[T]` moves *backwards* (3 → 1):
-    in the next iteration the "current" range starts at 2 and reaches into the old iteration. -/
-theorem rr_table_counter_moves_back :
-    (okOr d07Init (run d07Init (d07Ops ++ [.save "T" (some "n") 1 false]))).tableCtr "T" = 1 ∧
-    (okOr d07Init (run d07Init d07Ops)).tableCtr "T" = 3 ∧
-    pickRange (okOr d07Init (run d07Init (d07Ops ++ [.save "T" (some "n") 1 false, .reset,
-        .save "T" none 5 false, .save "T" none 6 false]))) "T" .current
-      = .ok { nick := none, table := "T", lo := 2, hi := 6 } := by
-  decide
+/-! ### monotone counters (fix 9826fcb) and what follows without `DenseTrace` -/
+
+/-- **`table_counters[T]` never moves backwards**, `local_counters[T]` neither, the window bound
+    never exceeds the counter, and between two states either no `reset_locals` happened for `T`'s
+    window or the window moved past the old counter — for every well-named op sequence `ops2`
+    continuing any reachable state.  (Before the fix the D07 witness lowered the counter 3 → 1.) -/
+theorem tableCtr_monotone (counters : List (Name × Nat)) (tables : List Name)
+    (nickmap : List (Name × Name)) (ops1 ops2 : List Op) (s s' : St)
+    (hrun1 : run (init counters tables nickmap) ops1 = .ok s) (hrun2 : run s ops2 = .ok s')
+    (hwn1 : ∀ op ∈ ops1, WellNamedOp (init counters tables nickmap).nickToTable op)
+    (hwn2 : ∀ op ∈ ops2, WellNamedOp (init counters tables nickmap).nickToTable op)
+    (T : Name) (hT : (init counters tables nickmap).nickToTable.lookup T = none) :
+    s.tableCtr T ≤ s'.tableCtr T ∧ s.localCtr T ≤ s'.localCtr T ∧ s'.localCtr T ≤ s'.tableCtr T ∧
+      (s'.localCtr T = s.localCtr T ∨ s.tableCtr T ≤ s'.localCtr T) := by
+  have m1 := Proofs.C10.mono_run _ T hT ops1 _ s (by simp [init]) hwn1 hrun1
+  have m2 := Proofs.C10.mono_run _ T hT ops2 s s' m1.le hwn2 hrun2
+  exact ⟨m2.tc, m2.lc, m2.le, m2.mv⟩
+
+/-- **Ranges handed to one `unique` context are compatible** (the D07c statement, full strength):
+    two `current-iteration` ranges of table `T` computed at an earlier and a later state, both with
+    rows in their window, either share the minimum with a top that did not shrink, or the later
+    one starts above the earlier top — exactly the precondition of `set_new_range`. -/
+theorem ranges_compatible (counters : List (Name × Nat)) (tables : List Name)
+    (nickmap : List (Name × Name)) (ops1 ops2 : List Op) (s s' : St)
+    (hrun1 : run (init counters tables nickmap) ops1 = .ok s) (hrun2 : run s ops2 = .ok s')
+    (hwn1 : ∀ op ∈ ops1, WellNamedOp (init counters tables nickmap).nickToTable op)
+    (hwn2 : ∀ op ∈ ops2, WellNamedOp (init counters tables nickmap).nickToTable op)
+    (T : Name) (hT : (init counters tables nickmap).nickToTable.lookup T = none)
+    (pr pr' : PickRange) (hpr : pickRange s T .current = .ok pr) (hpr' : pickRange s' T .current = .ok pr')
+    (hw : s.localCtr T < s.tableCtr T) (hw' : s'.localCtr T < s'.tableCtr T) :
+    (pr'.lo = pr.lo ∧ pr.hi ≤ pr'.hi) ∨ pr.hi + 1 ≤ pr'.lo := by
+  obtain ⟨m1, m2, m3, m4⟩ := tableCtr_monotone counters tables nickmap ops1 ops2 s s' hrun1 hrun2 hwn1 hwn2 T hT
+  have hnm : s.nickToTable = (init counters tables nickmap).nickToTable :=
+    (Proofs.C10.run_invariant' _ (fun _ => True) (fun _ _ _ _ _ _ _ _ => trivial) ops1 _ s rfl trivial hwn1 hrun1).2
+  have hnm' : s'.nickToTable = (init counters tables nickmap).nickToTable :=
+    (Proofs.C10.run_invariant' _ (fun _ => True) (fun _ _ _ _ _ _ _ _ => trivial) ops2 s s' hnm trivial hwn2 hrun2).2
+  rw [Proofs.C10.pickRange_table_window s T (by rw [hnm]; exact hT) hw] at hpr
+  rw [Proofs.C10.pickRange_table_window s' T (by rw [hnm']; exact hT) hw'] at hpr'
+  simp only [Except.ok.injEq] at hpr hpr'
+  subst hpr hpr'
+  simp only
+  rcases m4 with h | h
+  · left; omega
+  · right; omega
+
+/-- **Table scope without `DenseTrace`** (the D07b statement, full strength): after any well-named op
+    sequence, when the window of `T` is non-empty (`local_counters[T] < table_counters[T]`), the
+    drawn id is above every id of an earlier run, and every *saved* row carrying it was saved by the
+    running iteration.  So the result is a current row or an id not saved yet (reserved ahead: D07)
+    — never a row of an earlier iteration. -/
+theorem rr_table_scope_no_earlier_row (counters : List (Name × Nat)) (tables : List Name)
+    (nickmap : List (Name × Name)) (ops : List Op) (s : St)
+    (hrun : run (init counters tables nickmap) ops = .ok s)
+    (hwn : ∀ op ∈ ops, WellNamedOp (init counters tables nickmap).nickToTable op)
+    (T : Name) (hT : s.nickToTable.lookup T = none) (hw : s.localCtr T < s.tableCtr T)
+    (pr : PickRange) (hpr : pickRange s T .current = .ok pr)
+    (draw : Nat) (hlo : pr.lo ≤ draw) (hhi : draw ≤ pr.hi) :
+    pick s T .current draw = .ok (T, draw) ∧ s.prior T < draw ∧
+      ∀ r ∈ s.rows, r.table = T → r.id = draw → Current s r := by
+  obtain ⟨hi, hnm⟩ := Proofs.C10.run_invariant' (init counters tables nickmap).nickToTable
+    (fun s => s.nickToTable.lookup T = none → Proofs.C10.OrdInv s T)
+    (fun s op s1 o hnm hp hw hs hl => by
+      have hl' : s.nickToTable.lookup T = none := by rw [hnm, ← (Proofs.C10.step_frame hs).1.trans hnm]; exact hl
+      exact Proofs.C10.ordInv_step _ T (by rw [← hnm]; exact hl') s op s1 o hnm (hp hl') hw hs)
+    ops _ s rfl (fun _ => Proofs.C10.ordInv_init counters tables nickmap T) hwn hrun
+  have hi := hi hT
+  have hres := resaved_rows_not_current counters tables nickmap ops s hrun
+  have hpr' := hpr
+  rw [Proofs.C10.pickRange_table_window s T hT hw] at hpr
+  simp only [Except.ok.injEq] at hpr
+  subst hpr
+  simp only at hlo hhi
+  have hp := hi.pri
+  refine ⟨by simp only [pick, hpr', resolve], by omega, ?_⟩
+  intro r hr hrt hrid
+  have hep := hi.ep r hr
+  have hs : r.since = s.epoch := by
+    by_contra hne
+    have := hi.old r hr hrt (by omega)
+    omega
+  refine ⟨hs, ?_⟩
+  cases hb : r.resaved with
+  | false => rfl
+  | true => have := hres r hr hb; omega
+
+/-- **Rows of the running iteration lie inside the range** (the D07d statement): under `FreshTrace`
+    every current row of `T` has its id in `(local_counters[T], table_counters[T]]`.  Hence the window
+    is non-empty whenever the iteration created a row of `T`, the range `[lo, hi]` contains every
+    eligible target, and by `unique_succeeds_iff_unused_left` a unique pick cannot report exhaustion
+    while one of them is unused. -/
+theorem current_rows_in_range (counters : List (Name × Nat)) (tables : List Name)
+    (nickmap : List (Name × Name)) (ops : List Op) (s : St)
+    (hrun : run (init counters tables nickmap) ops = .ok s)
+    (hwn : ∀ op ∈ ops, WellNamedOp (init counters tables nickmap).nickToTable op)
+    (hf : FreshTrace (init counters tables nickmap) ops)
+    (T : Name) (hT : s.nickToTable.lookup T = none) :
+    ∀ r ∈ s.rows, r.table = T → Current s r → s.localCtr T < r.id ∧ r.id ≤ s.tableCtr T := by
+  obtain ⟨hi, -⟩ := Proofs.C10.run_invariant (init counters tables nickmap).nickToTable
+    Proofs.C10.FreshOp (fun s => Proofs.C10.FreshInv s T)
+    (fun s op s1 o hnm hp hw hc hs => Proofs.C10.freshInv_step _ T s op s1 o hnm hp hw hc hs)
+    ops _ s rfl ⟨by simp [init], by simp [init]⟩ hwn hf hrun
+  obtain ⟨ho, -⟩ := Proofs.C10.run_invariant' (init counters tables nickmap).nickToTable
+    (fun s => s.nickToTable.lookup T = none → Proofs.C10.OrdInv s T)
+    (fun s op s1 o hnm hp hw hs hl => by
+      have hl' : s.nickToTable.lookup T = none := by rw [hnm, ← (Proofs.C10.step_frame hs).1.trans hnm]; exact hl
+      exact Proofs.C10.ordInv_step _ T (by rw [← hnm]; exact hl') s op s1 o hnm (hp hl') hw hs)
+    ops _ s rfl (fun _ => Proofs.C10.ordInv_init counters tables nickmap T) hwn hrun
+  intro r hr hrt hc
+  exact ⟨hi.2 r hr hrt hc.1 hc.2, (ho hT).all r hr hrt⟩
+
+/-- **Table scope under `FreshTrace` only**: if the running iteration created a row of `T`, the
+    result is never a row of an earlier iteration or run (it is a current row, or — D07 — an id
+    reserved ahead that is not saved yet). -/
+theorem rr_table_scope_fresh (counters : List (Name × Nat)) (tables : List Name)
+    (nickmap : List (Name × Name)) (ops : List Op) (s : St)
+    (hrun : run (init counters tables nickmap) ops = .ok s)
+    (hwn : ∀ op ∈ ops, WellNamedOp (init counters tables nickmap).nickToTable op)
+    (hf : FreshTrace (init counters tables nickmap) ops)
+    (T : Name) (hT : s.nickToTable.lookup T = none)
+    (hcur : ∃ r' ∈ s.rows, r'.table = T ∧ Current s r')
+    (pr : PickRange) (hpr : pickRange s T .current = .ok pr)
+    (draw : Nat) (hlo : pr.lo ≤ draw) (hhi : draw ≤ pr.hi) :
+    pick s T .current draw = .ok (T, draw) ∧ s.prior T < draw ∧
+      ∀ r ∈ s.rows, r.table = T → r.id = draw → Current s r := by
+  obtain ⟨r', hr', hr't, hr'c⟩ := hcur
+  have := current_rows_in_range counters tables nickmap ops s hrun hwn hf T hT r' hr' hr't hr'c
+  exact rr_table_scope_no_earlier_row counters tables nickmap ops s hrun hwn T hT (by omega) pr hpr draw hlo hhi
 
 /-! ### unique -/
 
@@ -366,6 +493,26 @@ theorem unique_growth_never_fails (mk : Mk) (hmk : C12.GoodMk mk) (a b0 : Int) (
   simp only [uniqueRun, h1]
   rw [List.mem_cons, not_or]
   exact ⟨by simp, e3⟩
+
+/-- Each request either keeps the minimum and does not lower the top, or starts above the previous
+    top: what `ranges_compatible` guarantees for the ranges of one call site. -/
+def CompatReqs : Int → Int → List (Int × Int) → Prop
+  | _, _, [] => True
+  | a0, cur, (x, y) :: rest => ((x = a0 ∧ cur ≤ y) ∨ (cur + 1 ≤ x ∧ x ≤ y)) ∧ CompatReqs x y rest
+
+theorem compatReqs_iff {a0 cur : Int} {reqs : List (Int × Int)} :
+    CompatReqs a0 cur reqs ↔ Proofs.C10.CompatReqsP a0 cur reqs := by
+  induction reqs generalizing a0 cur with
+  | nil => simp [CompatReqs, Proofs.C10.CompatReqsP]
+  | cons r reqs ih => obtain ⟨x, y⟩ := r; simp only [CompatReqs, Proofs.C10.CompatReqsP]; rw [ih]
+
+/-- **Compatible ranges never trip an `UpdatableRandomRange` assertion** (growth inside an
+    iteration and moves to the next iteration's range, in any interleaving): together with
+    `ranges_compatible` this is the D07c statement at full strength. -/
+theorem unique_compatible_never_fails (mk : Mk) (hmk : C12.GoodMk mk) (a b : Int) (hab : a ≤ b)
+    (reqs : List (Int × Int)) (hc : CompatReqs a b reqs) :
+    Out.assertion ∉ (uniqueRun mk none ((a, b) :: reqs)).2 :=
+  Proofs.C10.uniqueRun_compat_first mk hmk a b hab reqs (compatReqs_iff.1 hc)
 
 /-- **A unique pick succeeds iff an unused target is left**: after any growth-only history on the
     range starting at `a`, a request `(a, b)` returns a value when fewer values than `b + 1 - a`
@@ -494,15 +641,29 @@ theorem shouldSave_of_table (hist : List Name) (t : Name) (nk : Option Name) (h 
 
 /-! ### non-vacuity -/
 
-example : ContiguousSaves (okOr d07Init (run d07Init [.save "T" none 1 false, .save "T" (some "n") 2 false, .reset,
-    .save "T" none 3 false])) "T" := by decide
+example : ContiguousSaves (okOr d07Init (run d07Init [.resave [], .save "T" none 1, .save "T" (some "n") 2, .reset,
+    .save "T" none 3])) "T" := by decide
 example : ¬ ContiguousSaves (okOr d07Init (run d07Init d07Ops)) "T" := by decide
-example : DenseTrace d07Init [.save "T" none 1 false, .save "T" (some "n") 2 false, .reset, .save "T" none 3 false] := by
+example : DenseTrace d07Init [.resave [], .save "T" none 1, .save "T" (some "n") 2, .reset, .save "T" none 3] := by
   decide
-example : ∀ op ∈ d07Ops ++ [.save "T" (some "n") 1 false], WellNamedOp d07Init.nickToTable op := by decide
-example : pick (okOr d07Init (run d07Init [.save "T" none 1 false, .save "T" (some "n") 2 false, .reset,
-    .save "T" (some "n") 3 false])) "n" .current 2 = .ok ("T", 3) := by decide
+example : DenseTrace d41Init d41Ops := by decide
+example : FreshTrace d07Init (d07Ops ++ [.save "T" (some "n") 1]) ∧ ¬ DenseTrace d07Init d07Ops := by decide
+example : ∀ op ∈ d07Ops ++ [.save "T" (some "n") 1], WellNamedOp d07Init.nickToTable op := by decide
+example : ∀ op ∈ d41Ops, WellNamedOp d41Init.nickToTable op := by decide
+/-- the D07 scenario after the fix: the late save of the reserved row leaves the counter at 3 -/
+example : (okOr d07Init (run d07Init (d07Ops ++ [.save "T" (some "n") 1]))).tableCtr "T" = 3 := by decide
+/-- … and the next iteration's range starts above it: `[4, 6]` (4 is the id reserved ahead: D07) -/
+example : pickRange (okOr d07Init (run d07Init (d07Ops ++ [.save "T" (some "n") 1, .reset,
+    .save "T" none 5, .save "T" none 6]))) "T" .current = .ok { nick := none, table := "T", lo := 4, hi := 6 } := by
+  decide
+/-- the D41 scenario after the fix: only the row of the running iteration is eligible -/
+example : pickRange (okOr d41Init (run d41Init d41Ops)) "n" .current
+    = .ok { nick := some "n", table := "T", lo := 2, hi := 2 } := by decide
+example : pick (okOr d41Init (run d41Init d41Ops)) "n" .current 2 = .ok ("T", 4) := by decide
+example : pick (okOr d07Init (run d07Init [.save "T" none 1, .save "T" (some "n") 2, .reset,
+    .save "T" (some "n") 3])) "n" .current 2 = .ok ("T", 3) := by decide
 example : ExtReqs 1 1 [(1, 2), (1, 2), (1, 4)] := by simp [ExtReqs]
+example : CompatReqs 1 3 [(1, 3), (1, 5), (6, 8), (6, 9), (10, 10)] := by simp [CompatReqs]
 example : changes none [some 1, some 1, some 2, none, none] = [true, false, true, true, false] := by decide
 
 end SnowModel.Props.C10
